@@ -38,6 +38,7 @@ fn main() {
         "C11" => c11::run(seed, n, outdir, corpus),
         "C20" => c20::run(seed, n, outdir, corpus),
         "C14" | "C15" | "C16" | "C18" | "C17T" => trn::run(prop, seed, n, outdir, corpus),
+        "C15M" => trn::run_model_images(seed, n, outdir),
         p if p.starts_with("BIG_") => big::run(prop, seed, n, outdir),
         "C05" | "C09" => img::run(prop, seed, n, outdir, corpus),
         "TOK" | "C01" | "C02" | "C03" | "C04" | "C08" | "C10" | "C12" | "C13" => tok::run(prop, seed, n, outdir, corpus),
